@@ -282,6 +282,25 @@ func main() {
 					if df := diffDigests(a, b, false); len(df) > 0 {
 						rec.Oracle["C12"] = "fail: two runs on the same schema differ: " + strings.Join(df, ", ")
 					}
+					// where the outcome could depend on an iteration order, more runs
+					twin := false
+					for _, t := range sc.tags {
+						if t == "twin-groups" {
+							twin = true
+						}
+					}
+					for k := 0; twin && k < 7; k++ {
+						_ = os.RemoveAll(filepath.Join(dir, "again"))
+						if clk, mk := runFixgen(dir2, sx, tx, dir); clk != "ok" {
+							rec.Oracle["C12"] = "fail: a repeated run of the generator on the same schema failed: " + mk
+							break
+						}
+						bk, _ := dirDigest(dir2)
+						if df := diffDigests(a, bk, false); len(df) > 0 {
+							rec.Oracle["C12"] = fmt.Sprintf("fail: run %d on the same schema differs from the first: %s", k+3, strings.Join(df, ", "))
+							break
+						}
+					}
 					// relative output directory (as the README uses it) and nested one
 					relOut := "./rel-out/fixpkg"
 					if cl3, m3 := runFixgen(relOut, sx, tx, dir); cl3 != "ok" {
